@@ -533,6 +533,36 @@ def Val.plainList : List Val → Bool
   | v :: vs => v.plain && Val.plainList vs
 end
 
+/-! ## an independent statement of the RESP line grammar -/
+
+/-- index of the first CR LF pair: the first position of the list of adjacent byte pairs that is
+    (13, 10).  A RESP line is the bytes before the FIRST such pair. -/
+def firstCrlf (bs : Bytes) : Option Nat :=
+  (bs.zip bs.tail).findIdx? (fun p => p.1 == 13 && p.2 == 10)
+
+mutual
+/-- the value as the simulation decoder (`String::from_utf8_lossy` on line texts) reports it -/
+def Val.lossy : Val → Val
+  | .simple s => .simple (utf8Lossy s)
+  | .error s => .error (utf8Lossy s)
+  | .array a => .array (Val.lossyList a)
+  | v => v
+def Val.lossyList : List Val → List Val
+  | [] => []
+  | v :: vs => v.lossy :: Val.lossyList vs
+end
+
+/-- the two decoders say the same thing: the same value (up to the lossy UTF-8 conversion of line
+    texts) with the same consumed count, or both "more bytes", or the same protocol error, or the
+    same crash -/
+def Outcome.Agrees (o1 o2 : Outcome) : Prop :=
+  match o1, o2 with
+  | .ok v1 k1, .ok v2 k2 => k1 = k2 ∧ v2 = v1.lossy
+  | .incomplete _, .incomplete _ => True
+  | .error e1, .error e2 => e1 = e2
+  | .crash c1, .crash c2 => c1 = c2
+  | _, _ => False
+
 /-- what the decoder's string conversion does to an (already sanitised) line is nothing: always
     true for codec 1; for codec 2 it says that the line is valid UTF-8 — the type invariant of
     `RespValue::SimpleString(Cow<str>)` / `Error(Cow<str>)` -/
